@@ -22,7 +22,7 @@ import (
 )
 
 func TestMain(m *testing.M) {
-	ev.C().Rule("rapid: start instants (on a boundary, +-1ns, arbitrary) x intervals {1s,10s,7s,1m,1.5s,250ms} x offsets in [0,interval) and beyond x advancement patterns (exact next-deadline steps, small steps, jumps over k intervals, a consumer that reads late). Layer 1: aligned ticker on a mock clock, arithmetic oracle on the tick values. Layer 2: real MetricFlusher with aligned flushing and a recording aggregator, clock stepped to the next deadline only while the flusher is parked. Layer 3: the same flusher under jumps of k intervals plus a fraction (landing between boundaries) and an aggregator flush that blocks while 1..3 further deadlines pass; exact tick model of the mock clock until the first slow flush, afterwards elapsed must be a positive multiple. Non-trivial = offset != 0 with a start within 1ns of a boundary, or a jump >= 2 intervals (layer 1), or a jump / slow consumer (layer 3)")
+	ev.C().Rule("rapid: start instants (on a boundary, +-1ns, arbitrary) x intervals {1s,10s,7s,1m,1.5s,250ms} x offsets in [0,interval) and beyond x advancement patterns (exact next-deadline steps, small steps, jumps over k intervals, a consumer that reads late). Layer 1: aligned ticker on a mock clock, arithmetic oracle on the tick values. Layer 2: real MetricFlusher with aligned flushing and a recording aggregator, clock stepped to the next deadline only while the flusher is parked. Layer 3: the same flusher under jumps of k intervals plus a fraction (landing between boundaries) and an aggregator flush that blocks while 1..3 further deadlines pass; exact tick model of the mock clock until the first slow flush, afterwards elapsed must be a positive multiple. Layer 4: the flusher on the real clock (10..25 ms intervals; real times carry monotonic readings), elapsed must be an exact positive multiple. Non-trivial = offset != 0 with a start within 1ns of a boundary, or a jump >= 2 intervals (layer 1), or a jump / slow consumer (layer 3), or offset != 0 (layer 4)")
 	vt.Main(m)
 }
 
@@ -482,4 +482,77 @@ func TestAlignedFlusherJumps(t *testing.T) {
 		}
 		ev.C().Case(fmt.Sprintf("J|%v|%v|%v|%v", start.UnixNano(), interval, offset, log), sawSlow || sawJump, labels...)
 	})
+}
+
+// TestAlignedFlusherRealClock runs the flusher on the real clock (no mock in the context) with a short interval:
+// real time values carry a monotonic reading that mock times do not have, and time.Sub prefers it. The elapsed
+// time handed to the aggregators must still be an exact positive multiple of the interval. Scheduling delays only
+// make the multiples larger; nothing here depends on how fast the machine is.
+func TestAlignedFlusherRealClock(t *testing.T) {
+	rapid.Check(t, func(t *rapid.T) {
+		interval := rapid.SampledFrom([]time.Duration{10 * time.Millisecond, 20 * time.Millisecond, 25 * time.Millisecond}).Draw(t, "interval")
+		offset := offsetGen(interval).Draw(t, "offset")
+		ctx, cancel := context.WithCancel(stats.NewContext(context.Background(), stats.NewNullStatser()))
+		agg := &realAgg{sig: make(chan struct{}, 64)}
+		fl := statsd.NewMetricFlusher(interval, offset, true, proc2{agg}, nil)
+		done := make(chan struct{})
+		go func() { fl.Run(ctx); close(done) }()
+		want := rapid.IntRange(3, 5).Draw(t, "flushes")
+		deadline := time.After(60 * time.Second)
+	wait:
+		for i := 0; i < want; i++ {
+			select {
+			case <-agg.sig:
+			case <-deadline:
+				break wait
+			}
+		}
+		cancel()
+		<-done
+		agg.mu.Lock()
+		calls := append([]time.Duration(nil), agg.elapsed...)
+		agg.mu.Unlock()
+		if len(calls) < want {
+			vt.Fail(t, "C18:flush-missing", "real clock, interval %v offset %v: only %d flushes within 60s", interval, offset, len(calls))
+		}
+		for i, d := range calls {
+			if i == 0 {
+				continue // the first elapsed value is measured from start-up, not from a flush
+			}
+			if d <= 0 || d%interval != 0 {
+				vt.Fail(t, "C18:reported-interval", "real clock: flush %d reports elapsed %v (%d ns) to the aggregators; must be a positive multiple of %v (offset %v, all %v)", i, d, int64(d), interval, offset, calls)
+			}
+		}
+		ev.C().Case(fmt.Sprintf("R|%v|%v|%d", interval, offset, want), offset != 0, "layer=flusher-real-clock", "interval="+interval.String())
+		if ev.C().WantSample() {
+			ev.C().Sample(map[string]interface{}{"real_clock": true, "interval": interval.String(), "offset": offset.String(), "elapsed": fmt.Sprint(calls)})
+		}
+	})
+}
+
+type realAgg struct {
+	mu      sync.Mutex
+	elapsed []time.Duration
+	sig     chan struct{}
+}
+
+func (a *realAgg) ReceiveMap(*gostatsd.MetricMap) {}
+func (a *realAgg) Flush(d time.Duration) {
+	a.mu.Lock()
+	a.elapsed = append(a.elapsed, d)
+	a.mu.Unlock()
+}
+func (a *realAgg) Process(f statsd.ProcessFunc) { f(gostatsd.NewMetricMap(false)) }
+func (a *realAgg) Reset() {
+	select {
+	case a.sig <- struct{}{}:
+	default:
+	}
+}
+
+type proc2 struct{ a *realAgg }
+
+func (p proc2) Process(ctx context.Context, fn statsd.DispatcherProcessFunc) gostatsd.Wait {
+	fn(0, p.a)
+	return func() {}
 }
